@@ -409,8 +409,8 @@ type Mutation struct {
 	File     string `json:"file"` // relative to the repository
 	Old      string `json:"old"`
 	New      string `json:"new"`
-	Rule     string `json:"rule"`   // rule expected to report
-	KeyPart  string `json:"key"`    // substring expected in the reported obligation key
+	Rule     string `json:"rule"` // rule expected to report
+	KeyPart  string `json:"key"`  // substring expected in the reported obligation key
 	Why      string `json:"why"`
 	Benign   bool   `json:"benign"` // behaviour-preserving: no rule may report
 	Expect   string `json:"expect"` // "undecided": the designed answer is UNDECIDED (shape outside a recognised fragment)
